@@ -207,6 +207,12 @@ func secretClosures(p *eng.Prog) []*ssa.Function {
 			_ = a
 			touches = true
 		}
+		// ... or works on an entry object directly
+		for _, a := range eng.FieldAccesses(f) {
+			if eng.IsNamed(a.Field.Owner, setecPkg, "cachedSecret") {
+				touches = true
+			}
+		}
 		if touches {
 			out = append(out, f)
 		}
@@ -310,5 +316,67 @@ func checkPrepubRemovals(c *eng.Ctx, rule string) {
 			}
 		}
 		c.Check(okReset, rule, a.Fn, a.In.Pos(), "removal before publication: "+eng.InstrStr(a.In), "while the store is being constructed entries are only discarded wholesale when the cache was rejected (decode error or invalid); a valid cache entry is used, nothing is expired at load time", "holding: "+eng.FactsString(a.In))
+	}
+}
+
+// noForget: single-flight's mutual exclusion per key ("one function per key
+// at a time") holds only as long as nobody calls Group.Forget while a flight
+// is in progress; the client library never needs it.
+func noForget(c *eng.Ctx, rule string) {
+	n := 0
+	for _, f := range c.P.PkgFuncs(setecPkg) {
+		eng.Instrs(f, func(in ssa.Instruction) {
+			ci, ok := in.(ssa.CallInstruction)
+			if !ok {
+				return
+			}
+			cal := ci.Common().StaticCallee()
+			if cal == nil || cal.Pkg == nil || cal.Pkg.Pkg.Path() != "golang.org/x/sync/singleflight" || cal.Name() != "Forget" {
+				return
+			}
+			n++
+			c.Bad(rule, f, in.Pos(), eng.CallStr(ci.Common()), "the store never forgets a single-flight key (Forget lets a second function run under a key whose flight is still in progress: overlapping polls / duplicate lookup requests)", "Group.Forget called in "+eng.FName(f))
+		})
+	}
+	if n == 0 {
+		c.Ok(rule, nil, 0, "singleflight.Group.Forget calls in the client library", "none")
+	}
+}
+
+
+// handleBoundToName: a handle must find its entry through the active map at
+// the time of the call.  Polls update entries in place, but a lookup that
+// fetches a name again replaces the entry object, and the handle is memoised
+// per name: a handle bound to the entry object would then serve (and stamp) an
+// orphan for ever, also to every watcher wrapping it.
+func handleBoundToName(c *eng.Ctx, rule string) {
+	p := c.P
+	n := 0
+	for _, f := range secretClosures(p) {
+		for _, a := range eng.FieldAccesses(f) {
+			if !eng.IsNamed(a.Field.Owner, setecPkg, "cachedSecret") || a.Addr == nil {
+				continue
+			}
+			fa := a.Addr
+			n++
+			base := eng.Origin(fa.X)
+			okk := false
+			found := eng.ValStr(fa.X)
+			if ex, isEx := base.(*ssa.Extract); isEx {
+				base = ex.Tuple
+			}
+			if lk, isLk := base.(*ssa.Lookup); isLk && lk.Parent() == f {
+				if nm, isAct := activeMapOf(lk.X); isAct && nm == "m" {
+					okk = true
+				}
+			}
+			if _, isFV := base.(*ssa.FreeVar); isFV {
+				found = "the entry object captured when the handle was created (" + found + ")"
+			}
+			c.Check(okk, rule, f, a.In.Pos(), "entry used by handle body "+eng.FName(f)+": "+eng.InstrStr(a.In), "looked up in Store.active.m by name inside the call (a later lookup of the same name replaces the entry object; the memoised handle must follow)", found)
+		}
+	}
+	if n == 0 {
+		c.Undecided(rule, nil, 0, "handle bodies", "no entry access found in a handle body")
 	}
 }
